@@ -23,7 +23,7 @@ PID = "C05"
 RULE = ("instances = tissue (equilibrium | deformed amp x pattern | scaled | sub-tissue | cell deletions) x rhs (static | velocity) x allow_negatives x method; "
         "non-trivial = at least one junction row and one unknown; classes = (rows, cols, path, rhs, method, active-set size)")
 BOUND = {"quick": "3 bases x {equilibrium, 3 amplitudes x 4 patterns, 2 scales} with deviation bound 2 (bound 3 on the smallest base) over 10 axes: variant, right-hand side {static, velocity, velocity with a fast common drift}, allow_negatives, 4 methods, map, cell order, angle limit, point counts (uniform / two-point interfaces among sampled ones), options (omitted / spelled out at their defaults / use_std / initial conditions); a single strongly unbalanced junction at every position (240 bumps, d=2); shipped dumps; all sub-tissues of a 7-cell base and all 1- and 2-cell deletions of an 11-cell base (d=1)",
-         "thorough": "4 bases, all sub-tissues of an 11-cell base, all 1-,2- and 3-cell deletions, full option product"}
+         "thorough": "5 bases with deviation bound 4 over the 10 axes of the quick tier (about 2.2e5 configurations; bound 5 was dropped when the point-count and drift axes were added: 7.4e5), bumps d=3, all sub-tissues of an 11-cell base and all 1-, 2- and 3-cell deletions with d=2, shipped dumps x frames x right-hand sides x methods"}
 ASSUMPTIONS = ["KKT tolerance 1e-9 x scale (default path); iterative back-ends: feasible and cost within (1+1e-4) ('lsq') / (1+1e-6) ('lsq_linear') of the certified optimum; scale = max(1,|A|max) x max(1,|b|max)",
                "'lsq_linear' is judged on consistent systems only (as the statement says)",
                "with allow_negatives=True a solution with negative tensions is only required to solve the square system exactly"]
@@ -377,7 +377,7 @@ def build(tier, seed):
         subs = [["sub", "v5x4", S] for S in T.connected_subsets(bases.get("v5x4"), min_size=3)]
         bumps = [["eq"]] + [["bump", j, a, d] for j in range(10) for a in (0.2, 0.35, 0.5) for d in range(8)]
         return [Solver("whole", [["whole", "v5x5"], ["whole", "v6x5"], ["whole", "v4x4p%d" % (seed + 1)]], 2, var),
-                Solver("whole-d3", [["whole", "v4x4p%d" % (seed + 1)]], 3, var[:6]),
+                Solver("whole-d3", [["whole", "v5x5"]], 3, [["eq"], ["noise", 0.08, 1], ["noise", 0.2, 2], ["noise", 0.2, 0], ["scale", 1e-3]]),
                 Solver("bumps", [["whole", "v5x5"]], 2, bumps),
                 ListSystem("shipped-fixtures", [{"files": FURROW[:2], "t": 0, "rhs": rh, "neg": False, "method": m}
                                                 for rh in ("static", "velocity") for m in (None, "lsq_linear")] +
@@ -387,7 +387,7 @@ def build(tier, seed):
     var = tissue_variants(None, [0.02, 0.08, 0.2], [0, 1, 2, 3], [1e-3, 1e3])
     subs = [["sub", "v5x5", S] for S in T.connected_subsets(bases.get("v5x5"), min_size=3)]
     bumps = [["eq"]] + [["bump", j, a, d] for j in range(10) for a in (0.2, 0.35, 0.5) for d in range(8)]
-    return [Solver("whole", [["whole", "v5x5"], ["whole", "v6x5"], ["whole", "v6x6"], ["whole", "v7x6"], ["whole", "v5x4p%d" % (seed + 1)]], 5, var),
+    return [Solver("whole", [["whole", "v5x5"], ["whole", "v6x5"], ["whole", "v6x6"], ["whole", "v7x6"], ["whole", "v5x4p%d" % (seed + 1)]], 4, var),
             Solver("bumps", [["whole", "v5x5"]], 3, bumps),
             ListSystem("shipped-fixtures", [{"files": FURROW, "t": t, "rhs": rh, "neg": ng, "method": m}
                                             for t in (0, 3, 7) for rh in ("static", "velocity") for ng in (False, True) for m in (None, "lsq", "lsq_linear", "fix_stress")] +
